@@ -29,7 +29,7 @@ def op_c08_parse(job):
             h = c07.make_handler(w.config, dirsel, "umn")
             h.selectorbase = base          # prepare() sets it before anything is parsed
             sel = base + "/.lf%d" % i
-            decoded = c07.read_text(os.fsencode(h.vfs.getfspath(sel)))
+            decoded = c07.read_text(c07.fs_path(w.config, sel))
             try:
                 les = c07.with_alarm(5, lambda: h.processLinkFile(sel, it["cap"]))
                 out.append({"decoded": decoded, "entries": [c07.entry_fields(e) for e in les]})
@@ -55,7 +55,7 @@ def op_c08_sidecar(job):
         for i, it in enumerate(job["items"]):
             e = gopherentry.GopherEntry("/f%d.txt" % i, w.config)
             e.handleeaext("/f%d.txt" % i, vfs)
-            decoded = c07.read_text(os.fsencode(vfs.getfspath("/f%d.txt.abstract" % i)))
+            decoded = c07.read_text(c07.fs_path(w.config, "/f%d.txt.abstract" % i))
             out.append({"decoded": decoded, "abstract": e.getea("ABSTRACT")})
         return out
     finally:
